@@ -43,7 +43,7 @@ META = {
     'decided': ['D1 constraint coverage', 'D2 domain agreement',
                 'D3 separator-aware hierarchical tests / argument-path rule',
                 'D4 missing arguments never match', 'D5 isolation and '
-                'removal (client router; daemon RemoveMatch accounting); matching does not modify the rule; a rule is filed only when complete; cancelSignalNotification forgets the id at once', 'D6 rule text agrees with the local rule',
+                'removal (client router; daemon RemoveMatch accounting); matching does not modify the rule; a rule is filed only when complete, under an id that is never reused; cancelSignalNotification forgets the id at once', 'D6 rule text agrees with the local rule',
                 'D7 proxy subscription guarded by the signature'],
     'undecided': ['matcher == reference matcher on generated pairs',
                   'add/remove histories'],
@@ -552,6 +552,37 @@ def isolation(ctx, match, mpaths):
             oka = True
     ctx.ob('C12.D5', afi.qualname, 'returns-registration-key', oka,
            'addMatch must return the key under which the rule was stored')
+    # ... and that key is never handed out twice: it comes from a counter
+    # of the router that every registration advances (len(self._rules) or a
+    # "first free slot" repeats an id after a removal - the holder of the
+    # old id then removes, or is removed through, somebody else's rule)
+    okk = False
+    why = 'no registration found'
+    for p in Interp(prog, exc_edges=False).run(afi):
+        sets = [e for e in p.trace if e[0] == 'setsub' and e[1] == table]
+        if len(sets) != 1:
+            continue
+        key = sets[0][2]
+        if kind(key) == 'attr' and key[1] == selft:
+            ctr = key[2]
+            adv = [e for e in p.trace if e[0] == 'setattr' and
+                   e[1] == selft and e[2] == ctr]
+            okk = bool(adv) and all(
+                kind(e[3]) == 'binop' and e[3][1] == '+' and
+                e[3][2] == key and is_const(e[3][3]) and
+                isinstance(e[3][3][1], int) and e[3][3][1] > 0 for e in adv)
+            why = 'counter %s %s' % (ctr, 'advanced' if okk else
+                                     'not advanced by a positive constant')
+        else:
+            okk = False
+            why = 'the key is %s' % term_str(key)[:50]
+        if not okk:
+            break
+    ctx.ob('C12.D5', afi.qualname, 'registration-key-never-reused', okk,
+           'the id a rule is registered under must come from a counter of '
+           'the router that each registration advances (%s): an id that can '
+           'repeat after a removal lets one holder remove another\'s rule, '
+           'and makes the bus\'s disconnect cleanup raise KeyError' % why)
     filed_when_complete(ctx, 'C12.D5')
     cancel_is_synchronous(ctx)
     # the daemon-side user of the same router: RemoveMatch over all
